@@ -1,16 +1,23 @@
 """C02 - compressed (RV32C) instructions encode exactly as specified, one-to-one."""
-from contracts import encoders as E
+from props import common
 
 LEVEL = 'proof'
 
 
 def build(ctx):
-    ctx.task('contracts.encoders:task_lookup_register')
-    for m in E.mnemonics_from_source(ctx):
-        if m.startswith('c.'):
-            ctx.task('contracts.encoders:task_encoder', m)
-            ctx.task('contracts.encoders:task_reverse', m)
+    common.encoder_tasks(ctx, lambda m: m.startswith('c.'), reverse=True)
+    ctx.task('contracts.emit:task_emit_pass', 'resolve_instructions')
+    ctx.trust(common.TRUST_BOUNDED)
+
+
+def bounded(ctx):
+    ctx.task('bounded.tasks:encoder_text_task', 'c', ['accept', 'decode', 'size'], ['x', 'abi'])
+    ctx.task('bounded.tasks:halfword_task')
 
 
 def explanation(ctx):
-    return 'wip'
+    return ('PROVED: forward - every tuple a c.* encoder accepts yields a halfword that the RVC tables classify as that mnemonic with '
+            'those operands and that is neither a hint nor reserved; the encoder accepts exactly the legal set; reverse - for every '
+            '16-bit h that is a legal encoding of form m, the real encoder returns h on the operands read back from h (27 VCs over a '
+            'bit-vector h); injectivity. BOUNDED/EXHAUSTIVE (concrete): all 65,536 halfwords classified by the spec and re-encoded by '
+            'the real functions; text front end for corner tuples.')
